@@ -151,6 +151,18 @@ example : balanced noQuiet (.seq .push (.seq (.call 0) .pop)) = false := by deci
 example : (exec ⟨fun _ _ => true, fun _ _ => false, fun _ _ => 0⟩ (.seq .push (.seq (.call 0) .pop)) ⟨3, []⟩).1.depth = 4 := by
   decide
 
+/-- Generated obligation (PROBED, not pattern-matched: `extract/c13.py` runs the two functions of the tree under test):
+`_process_response_callbacks` and `_process_finished_callbacks` drain their deque until it is EMPTY, FIFO — a
+callback registered by a callback of the same pass runs in that pass, after everything registered before it (a, d, e,
+then b registered by a, then c registered by b), the other deque is left alone, nothing is left; a failing callback
+stops the pass and leaves the rest (e, and b registered by a) in the deque.  A loop bounded by the initial length of
+the deque (`for _ in range(len(callbacks))`) gives ["a","d","e"] with 1 left and fails this. -/
+theorem callback_loops_drain_the_deque : drainProbe =
+    [("response", ["a", "d", "e", "b", "c"], 0, false),
+     ("response with a failing callback", ["a", "d"], 2, true),
+     ("finished", ["a", "d", "e", "b", "c"], 0, false),
+     ("finished with a failing callback", ["a", "d"], 2, true)] := by decide
+
 /-! ### the request path of the generated skeletons against the callback-order and stage-order monitors -/
 
 /-- General: when `post` accepts a statement from the initial monitor state, then for EVERY oracle the monitor
@@ -262,10 +274,10 @@ theorem wsgi_call_balanced (xv : Bool) (r : Req) (stack0 : List Path) :
 
 /-- Every observation of the current request made while the request is served — in the view body, when the view
 body resumes after a subrequest or an explicit exception-view invocation, in the exception view, in every other
-hook and in every callback — sees the request itself. -/
+hook and in every callback (also those registered by callbacks) — sees the request itself. -/
 theorem current_request_is_self_in_view (xv top : Bool) (r : Req) (self : Path) (stack0 : List Path) :
     ∀ e ∈ ownLog xv top r self stack0, e.curOk = true := by
-  obtain ⟨pre, b, post, tail, heq, hpre, _, hpost, htail, _⟩ := (runReq_props xv top r self stack0).2
+  obtain ⟨pre, b, rp, np, tail, heq, hpre, hrp, hnp, _, _, htail, _⟩ := (runReq_props xv top r self stack0).2.1
   intro e he
   simp only [ownLog] at he
   rw [heq] at he
@@ -274,7 +286,14 @@ theorem current_request_is_self_in_view (xv top : Bool) (r : Req) (self : Path) 
   · rcases List.mem_cons.mp h with h | h
     · subst h; rfl
     · rcases List.mem_append.mp h with h | h
-      · exact (hpost e h).2.2
+      · rcases List.mem_append.mp h with h | h
+        · exact (hrp e h).2
+        · rcases hnp with h0 | ⟨d, regEvs, h0, hreg⟩
+          · subst h0; cases h
+          · subst h0
+            rcases List.mem_cons.mp h with h | h
+            · subst h; rfl
+            · exact (isReg_good (hreg e h)).2
       · exact (htail e h).2
 
 /-- **Explicit `request.invoke_exception_view(exc_info, request=other)`**: whatever the stack looks like when it is
@@ -301,70 +320,144 @@ theorem view_body_sees_itself (xv top : Bool) (r : Req) (self : Path) (stack0 : 
     (h : Ev.hook .viewBody c d ∈ ownLog xv top r self stack0) : c = true :=
   current_request_is_self_in_view xv top r self stack0 _ h
 
-/-- Finished callbacks, general form (also when a finished callback itself fails, which the statement does not
-list): the own log splits into a body without finished callbacks and a tail of finished callbacks only, and the
-tail runs the callbacks registered in the body, in registration order, each once, through the first failing one. -/
-theorem finished_run_last_through_first_failure (xv top : Bool) (r : Req) (self : Path) (stack0 : List Path) :
-    ∃ body tail, ownLog xv top r self stack0 = body ++ tail ∧
-      (∀ e ∈ body, e.isFinCb = false) ∧ (∀ e ∈ tail, e.isFinCb = true) ∧
-      finIds tail = throughFault r.cfg (regsOf .fin body) := by
-  obtain ⟨pre, b, post, tail, heq, hpre, _, hpost, htail, hfin⟩ := (runReq_props xv top r self stack0).2
-  refine ⟨pre ++ Ev.chain b :: post, tail, by simp only [ownLog]; rw [heq]; simp, ?_, fun e he => (htail e he).1, ?_⟩
-  · intro e he
+/-- **Finished callbacks drain** (`while callbacks: callbacks.popleft()(request)` — a FIFO work-list).  For every
+request tree, schedule and entry stack (own log shorter than `drainFuel`, so the model's loop ended by itself): the
+own log splits into a body without finished callbacks and a tail that consists only of finished-callback runs and the
+registrations those callbacks make; the finished callbacks run are EVERY finished callback registered anywhere in
+the log — by a hook before or after whatever failed, by a response callback, or by a finished callback while the deque
+is being drained — in registration order (FIFO), each once, through the first one that itself fails; and when none of
+them fails nothing is left in the deque afterwards. -/
+theorem finished_callbacks_drain (xv top : Bool) (r : Req) (self : Path) (stack0 : List Path)
+    (hfuel : (ownLog xv top r self stack0).length < drainFuel) :
+    (∃ body tail, ownLog xv top r self stack0 = body ++ tail ∧
+      (∀ e ∈ body, e.isFinCb = false) ∧ (∀ e ∈ tail, e.isCbOrReg .fin = true)) ∧
+    finIds (ownLog xv top r self stack0) = throughFault r.cfg (regsOf .fin (ownLog xv top r self stack0)) ∧
+    (allOk r.cfg (regsOf .fin (ownLog xv top r self stack0)) = true →
+      finIds (ownLog xv top r self stack0) = regsOf .fin (ownLog xv top r self stack0) ∧
+      (runReq xv top r self stack0).1.left.2 = 0) := by
+  obtain ⟨_, ⟨pre, b, rp, np, tail, heq, hpre, hrp, hnp, _, _, htail, hfin⟩, hleft⟩ := runReq_props xv top r self stack0
+  simp only [ownLog] at hfuel ⊢
+  have hnofin : ∀ e ∈ pre ++ Ev.chain b :: (rp ++ np), e.isFinCb = false := by
+    intro e he
     rcases List.mem_append.mp he with h | h
     · have := (hpre e h).1
       cases e <;> simp_all [Ev.isStage, Ev.isFinCb]
     · rcases List.mem_cons.mp h with h | h
       · subst h; rfl
-      · exact (hpost e h).1
-  · rw [hfin, regsOf_append, regsOf_append, regsOf_chain]
+      · rcases List.mem_append.mp h with h | h
+        · have := (hrp e h).1
+          cases e with
+          | cb k i c d => cases k <;> simp_all [Ev.isCbOrReg, Ev.isFinCb]
+          | _ => simp [Ev.isFinCb]
+        · rcases hnp with h0 | ⟨d, regEvs, h0, hreg⟩
+          · subst h0; cases h
+          · subst h0
+            rcases List.mem_cons.mp h with h | h
+            · subst h; rfl
+            · have := hreg e h
+              cases e <;> simp_all [Ev.isReg, Ev.isFinCb]
+  have hids0 : cbIds .fin (pre ++ Ev.chain b :: (rp ++ np)) = [] := by
+    simp only [cbIds]
+    refine List.filterMap_eq_nil_iff.mpr fun e he => ?_
+    have := hnofin e he
+    cases e with
+    | cb k i c d => cases k <;> simp_all [Ev.isFinCb, cbId]
+    | _ => simp [cbId]
+  have hsplit : (runReq xv top r self stack0).1.own = (pre ++ Ev.chain b :: (rp ++ np)) ++ tail := by
+    rw [heq]; simp
+  have hregs : regsOf .fin (runReq xv top r self stack0).1.own = regsOf .fin (pre ++ (rp ++ np) ++ tail) := by
+    rw [heq]
+    simp only [regsOf, List.filterMap_append]
+    rw [List.filterMap_cons_none (by rfl)]
+    simp
+  have hlen : (cbIds .fin tail).length < drainFuel := by
+    refine Nat.lt_of_le_of_lt (Nat.le_trans (cbIds_length_le .fin tail) ?_) hfuel
+    rw [hsplit]; simp; omega
+  have hidsall : finIds (runReq xv top r self stack0).1.own = cbIds .fin tail := by
+    rw [finIds_eq_cbIds, hsplit, cbIds_append, hids0]; rfl
+  have hmain : finIds (runReq xv top r self stack0).1.own =
+      throughFault r.cfg (regsOf .fin (runReq xv top r self stack0).1.own) := by
+    rw [hidsall, hregs]; exact hfin hlen
+  refine ⟨⟨_, tail, hsplit, hnofin, fun e he => (htail e he).1⟩, hmain, fun hall => ⟨?_, ?_⟩⟩
+  · rw [hmain]
+    exact throughFault_of_none _ _ ((allOk_iff _ _).mp hall)
+  · refine hleft ?_ hall
+    rw [← finIds_eq_cbIds, hidsall]; exact hlen
 
 /-- **Finished callbacks** (the statement): when no registered finished callback is itself scheduled to fail, every
-finished callback registered during the request — before or after whatever failure the schedule injects, at
-whatever stage — runs exactly once, in registration order, after everything else the request does. -/
+finished callback registered during the request — before or after whatever failure the schedule injects, at whatever
+stage, also by callbacks while the deques are drained — runs exactly once, in registration order, after everything
+else the request does, and the deque is empty afterwards. -/
 theorem finished_once_in_order_last (xv top : Bool) (r : Req) (self : Path) (stack0 : List Path)
+    (hfuel : (ownLog xv top r self stack0).length < drainFuel)
     (hok : ∀ i ∈ regsOf .fin (ownLog xv top r self stack0), cbFaulty r.cfg i = false) :
+    finIds (ownLog xv top r self stack0) = regsOf .fin (ownLog xv top r self stack0) ∧
+    (runReq xv top r self stack0).1.left.2 = 0 ∧
     ∃ body tail, ownLog xv top r self stack0 = body ++ tail ∧
-      (∀ e ∈ body, e.isFinCb = false) ∧ (∀ e ∈ tail, e.isFinCb = true) ∧
-      finIds tail = regsOf .fin body := by
-  obtain ⟨body, tail, heq, hb, ht, hf⟩ := finished_run_last_through_first_failure xv top r self stack0
-  refine ⟨body, tail, heq, hb, ht, ?_⟩
-  rw [hf]
-  apply throughFault_of_none
-  intro i hi
-  apply hok
-  rw [heq, regsOf_append]
-  exact List.mem_append_left _ hi
+      (∀ e ∈ body, e.isFinCb = false) ∧ (∀ e ∈ tail, e.isCbOrReg .fin = true) := by
+  obtain ⟨hs, _, h3⟩ := finished_callbacks_drain xv top r self stack0 hfuel
+  obtain ⟨a, b⟩ := h3 ((allOk_iff _ _).mpr hok)
+  exact ⟨a, b, hs⟩
 
-/-- **Response callbacks and NewResponse** (the statement): the own log has exactly one chain marker; nothing of the
-response phase happens before it; if an exception came out of the tween chain nothing of it happens at all; if a
-response came out, the response callbacks registered so far run in registration order, each once, through the
-first failing one, and then — iff none failed — the NewResponse event occurs, once. -/
+/-- **Response callbacks drain, then NewResponse** (the statement): the own log has exactly one chain marker; nothing
+of the response phase happens before it; if an exception came out of the tween chain nothing of it happens at all;
+if a response came out, the response-callback deque is drained (`rp`: runs of response callbacks and the
+registrations they make): the callbacks run are every response callback registered before the marker or during the
+drain, FIFO, each once, through the first failing one; then — iff none failed — the NewResponse event occurs, once
+(response callbacks registered later, by NewResponse subscribers or finished callbacks, stay in the deque). -/
 theorem response_callbacks_then_newresponse_iff_response (xv top : Bool) (r : Req) (self : Path)
-    (stack0 : List Path) :
-    ∃ pre b post, ownLog xv top r self stack0 = pre ++ Ev.chain b :: post ∧
-      (∀ e ∈ pre, e.isChain = false) ∧ (∀ e ∈ post, e.isChain = false) ∧
-      respTrace pre = [] ∧
-      respTrace post = (if b = true then expectedResp r.cfg (regsOf .resp pre) else []) := by
-  obtain ⟨pre, b, post, tail, heq, hpre, hresp, hpost, htail, _⟩ := (runReq_props xv top r self stack0).2
-  refine ⟨pre, b, post ++ tail, heq, ?_, ?_, respTrace_of_stage hpre, ?_⟩
+    (stack0 : List Path) (hfuel : (ownLog xv top r self stack0).length < drainFuel) :
+    ∃ pre b rp rest, ownLog xv top r self stack0 = pre ++ Ev.chain b :: (rp ++ rest) ∧
+      (∀ e ∈ pre, e.isChain = false) ∧ (∀ e ∈ rp ++ rest, e.isChain = false) ∧
+      respTrace pre = [] ∧ (∀ e ∈ rp, e.isCbOrReg .resp = true) ∧
+      respTrace (rp ++ rest) = (if b = true then expectedResp r.cfg (regsOf .resp (pre ++ rp)) else []) := by
+  obtain ⟨pre, b, rp, np, tail, heq, hpre, hrp, hnp, hb, hresp, htail, _⟩ := (runReq_props xv top r self stack0).2.1
+  simp only [ownLog] at hfuel ⊢
+  have htailresp : respTrace tail = [] := by
+    simp only [respTrace]
+    refine List.filterMap_eq_nil_iff.mpr fun e he => ?_
+    have := (htail e he).1
+    cases e with
+    | cb k i c d => cases k <;> simp_all [Ev.isCbOrReg, respItem]
+    | reg k i => rfl
+    | _ => simp [Ev.isCbOrReg] at this
+  have hlen : (cbIds .resp rp).length < drainFuel := by
+    refine Nat.lt_of_le_of_lt (Nat.le_trans (cbIds_length_le .resp rp) ?_) hfuel
+    rw [heq]; simp; omega
+  refine ⟨pre, b, rp, np ++ tail, by rw [heq]; simp, ?_, ?_, respTrace_of_stage hpre, fun e he => (hrp e he).1, ?_⟩
   · intro e he
     have := (hpre e he).1
     cases e <;> simp_all [Ev.isStage, Ev.isChain]
   · intro e he
     rcases List.mem_append.mp he with h | h
-    · exact (hpost e h).2.1
-    · have := (htail e h).1
-      cases e <;> simp_all [Ev.isFinCb, Ev.isChain]
-  · simp only [respTrace, List.filterMap_append] at hresp ⊢
-    have := respTrace_of_fin htail
-    simp only [respTrace] at this
-    rw [this, hresp]; simp
+    · have := (hrp e h).1
+      cases e <;> simp_all [Ev.isCbOrReg, Ev.isChain]
+    · rcases List.mem_append.mp h with h | h
+      · rcases hnp with h0 | ⟨d, regEvs, h0, hreg⟩
+        · subst h0; cases h
+        · subst h0
+          rcases List.mem_cons.mp h with h | h
+          · subst h; rfl
+          · have := hreg e h
+            cases e <;> simp_all [Ev.isReg, Ev.isChain]
+      · have := (htail e h).1
+        cases e <;> simp_all [Ev.isCbOrReg, Ev.isChain]
+  · have : respTrace (rp ++ (np ++ tail)) = respTrace (rp ++ np) := by
+      simp only [respTrace, List.filterMap_append] at htailresp ⊢
+      rw [htailresp]; simp
+    rw [this]
+    cases b with
+    | true => simp only [↓reduceIte]; exact hresp rfl hlen
+    | false =>
+      obtain ⟨h1, h2⟩ := hb rfl
+      subst h1; subst h2; rfl
 
-/-- the two halves of the "iff", spelled out -/
+/-- one half of the "iff", spelled out -/
 theorem no_response_no_callbacks (xv top : Bool) (r : Req) (self : Path) (stack0 : List Path)
+    (hfuel : (ownLog xv top r self stack0).length < drainFuel)
     (h : Ev.chain false ∈ ownLog xv top r self stack0) : respTrace (ownLog xv top r self stack0) = [] := by
-  obtain ⟨pre, b, post, heq, hpre, hpost, hr1, hr2⟩ := response_callbacks_then_newresponse_iff_response xv top r self stack0
+  obtain ⟨pre, b, rp, rest, heq, hpre, hpost, hr1, _, hr2⟩ :=
+    response_callbacks_then_newresponse_iff_response xv top r self stack0 hfuel
   rw [heq] at h ⊢
   have hb : b = false := by
     rcases List.mem_append.mp h with h | h
@@ -374,32 +467,8 @@ theorem no_response_no_callbacks (xv top : Bool) (r : Req) (self : Path) (stack0
       · have := hpost _ h; simp [Ev.isChain] at this
   subst hb
   simp only [respTrace, List.filterMap_append] at hr1 hr2 ⊢
-  rw [hr1, List.filterMap_cons_none (by rfl), hr2]; simp
-
-theorem response_then_all_callbacks_then_newresponse (xv top : Bool) (r : Req) (self : Path) (stack0 : List Path)
-    (h : Ev.chain true ∈ ownLog xv top r self stack0)
-    (hok : ∀ i ∈ regsOf .resp (ownLog xv top r self stack0), cbFaulty r.cfg i = false) :
-    ∃ pre post, ownLog xv top r self stack0 = pre ++ Ev.chain true :: post ∧
-      respTrace (ownLog xv top r self stack0) = (regsOf .resp pre).map some ++ [none] := by
-  obtain ⟨pre, b, post, heq, hpre, hpost, hr1, hr2⟩ := response_callbacks_then_newresponse_iff_response xv top r self stack0
-  have hb : b = true := by
-    rw [heq] at h
-    rcases List.mem_append.mp h with h | h
-    · have := hpre _ h; simp [Ev.isChain] at this
-    · rcases List.mem_cons.mp h with h | h
-      · injection h with h; exact h.symm
-      · have := hpost _ h; simp [Ev.isChain] at this
-  subst hb
-  refine ⟨pre, post, heq, ?_⟩
-  have hpreok : ∀ i ∈ regsOf .resp pre, cbFaulty r.cfg i = false := by
-    intro i hi
-    apply hok
-    rw [heq, regsOf_append]
-    exact List.mem_append_left _ hi
-  rw [heq]
-  simp only [respTrace, List.filterMap_append] at hr1 hr2 ⊢
-  rw [hr1, List.filterMap_cons_none (by rfl), hr2]
-  simp [expectedResp_of_none _ _ hpreok]
+  rw [hr1, List.filterMap_cons_none (by rfl)]
+  simpa using hr2
 
 /-- PARTIAL link between the two models (`pipeline_refines_skeleton`).  Proved: the own log of the hand-written
 pipeline model, for every request tree, schedule and entry stack, projected to the skeleton's observation alphabet
@@ -411,9 +480,10 @@ response callbacks / NewResponse / finished callbacks claimed by the model are t
 Missing for the full refinement: that each model log is the observation of `exec` under a corresponding oracle
 (trace equality, incl. the stage events inside `handle_request` and the exception view); that direction is checked per
 case by the harness (`find_oracle` + Lean `exec`), not proved. -/
-theorem pipeline_refines_skeleton_partial (xv top : Bool) (r : Req) (self : Path) (stack0 : List Path) :
+theorem pipeline_refines_skeleton_partial (xv top : Bool) (r : Req) (self : Path) (stack0 : List Path)
+    (hfuel : (ownLog xv top r self stack0).length < drainFuel) :
     ∃ q, accepts 0 (withFinish (proj r.cfg (ownLog xv top r self stack0))) = some q ∧ 10 ≤ q :=
-  pipeline_accepted xv top r self stack0
+  pipeline_accepted xv top r self stack0 hfuel
 
 /-! ### non-vacuity: concrete schedules -/
 
@@ -421,7 +491,7 @@ theorem pipeline_refines_skeleton_partial (xv top : Bool) (r : Req) (self : Path
 view body; the view's subrequest fails in its root factory with a plain exception, which reaches the server -/
 def demoReq : Req :=
   .mk { useTweens := true, route := false, faults := [(.renderer, .plain)],
-        regs := [⟨.newRequest, .fin, none⟩, ⟨.viewBody, .resp, none⟩, ⟨.excView, .fin, none⟩],
+        regs := [⟨.hook .newRequest, .fin, none⟩, ⟨.hook .viewBody, .resp, none⟩, ⟨.hook .excView, .fin, none⟩],
         explicitXv := none }
     (.cons (.mk { useTweens := false, route := false, faults := [(.rootFactory, .plain)], regs := [], explicitXv := none } .nil) .nil)
 
@@ -432,7 +502,7 @@ example : Ev.chain false ∈ (runTop false demoReq []).1.own := by decide +kerne
 /-- the same request without the subrequest: the renderer fails, the exception view answers -/
 def demoReq2 : Req :=
   .mk { useTweens := true, route := true, faults := [(.renderer, .plain)],
-        regs := [⟨.newRequest, .fin, none⟩, ⟨.viewBody, .resp, none⟩, ⟨.excView, .fin, none⟩],
+        regs := [⟨.hook .newRequest, .fin, none⟩, ⟨.hook .viewBody, .resp, none⟩, ⟨.hook .excView, .fin, none⟩],
         explicitXv := some .plain } .nil
 
 example : (runTop true demoReq2 [[7]]).2.1 = .resp := by decide +kernel
@@ -452,11 +522,23 @@ def demoReq4 : Req :=
 example : (runTop true demoReq4 [[7]]).1.kids.map Tr.own = [[Ev.hook .excView true 3]] := by decide +kernel
 example : Ev.resume true 2 ∈ (runTop true demoReq4 [[7]]).1.own := by decide +kernel
 
+/-- callbacks registering callbacks while the deques are drained: the view registers finished callback 0 and
+response callback 3; 0 registers finished callback 1, which registers finished callback 2; 3 registers response
+callback 4 and finished callback 5 -/
+def demoReq5 : Req :=
+  .mk { useTweens := true, route := false, faults := [],
+        regs := [⟨.hook .viewBody, .fin, none⟩, ⟨.cb 0, .fin, none⟩, ⟨.cb 1, .fin, none⟩,
+                 ⟨.hook .viewBody, .resp, none⟩, ⟨.cb 3, .resp, none⟩, ⟨.cb 3, .fin, none⟩],
+        explicitXv := none } .nil
+
+example : finIds (runTop false demoReq5 []).1.own = [0, 5, 1, 2] ∧ respTrace (runTop false demoReq5 []).1.own = [some 3, some 4, none] ∧
+    (runTop false demoReq5 []).1.left = (0, 0) ∧ (runTop false demoReq5 []).1.own.length < drainFuel := by decide +kernel
+
 /-- excluded point of `finished_once_in_order_last` (outside the statement's fault list): a finished callback that
 fails keeps the later ones from running -/
 def demoReq3 : Req :=
   .mk { useTweens := true, route := false, faults := [],
-        regs := [⟨.newRequest, .fin, some .plain⟩, ⟨.viewBody, .fin, none⟩], explicitXv := none } .nil
+        regs := [⟨.hook .newRequest, .fin, some .plain⟩, ⟨.hook .viewBody, .fin, none⟩], explicitXv := none } .nil
 
 example : finIds (runTop false demoReq3 []).1.own = [0] ∧ regsOf .fin (runTop false demoReq3 []).1.own = [0, 1] ∧
     (runTop false demoReq3 []).2.2 = [] := by decide +kernel
